@@ -92,8 +92,8 @@ class ValidationScenario(StateScenario):
                 validators.append(("field", self.tag(st, p), canon(v) if not isinstance(v, (list, dict)) else ("container", len(v))))
                 if f["validator"] in ("neg", "negk") and model._neg_predicate(v):
                     out.append((p, "field validator rejects the value"))
-        for vid in snode.get("validators", ()):
-            validators.append(("schema", self.tag(st, path) or "<root>", snapshot.snap(cfgobj, None, False)))
+        for i, vid in enumerate(snode.get("validators", ())):
+            validators.append(("schema", (self.tag(st, path) or "<root>") + ("@%d" % i if i else ""), snapshot.snap(cfgobj, None, False)))
             if vid == "pred":
                 for key, value in cfgobj:
                     if isinstance(value, int) and not isinstance(value, bool) and value == 13:
